@@ -133,7 +133,12 @@ class ThermochemRawData(ThermochemBase):
 
         # The easiest, albeit not necessarily the best thing to do here is to
         # use numerical integration, so that's what we do.
-        return ND_S + integrate(lambda t: self.spline(t)/t, T_a, T_b)[0]
+        # The spline is only piecewise smooth: tell the integrator where the
+        # data points are, otherwise its error estimate is unreliable.
+        (lo, hi, sign) = (T_a, T_b, 1.0) if T_a <= T_b else (T_b, T_a, -1.0)
+        knots = [t for t in self.Ts if lo < t < hi]
+        return ND_S + sign*integrate(lambda t: self.spline(t)/t, lo, hi,
+                                     points=(knots or None))[0]
 
     def get_HoRT(self, T):
         """Return non-dimensional standard heat of formation |eq_ND_H_T|."""
